@@ -186,7 +186,7 @@ class HasAccessibles(HasProperties):
                                 self.log.debug('write_%s(%r) returned %r', pname, value, new_value)
                                 if new_value is Done:  # TODO: to be removed when all code using Done is updated
                                     return getattr(self, pname)
-                                new_value = value if new_value is None else validate(new_value)
+                                new_value = validate(value if new_value is None else new_value)
                         except SECoPError as e:
                             e.raising_methods.append(f'{self.name}.write_{pname}')
                             raise
